@@ -90,7 +90,9 @@ def do_case(case):
     r['loss_at_params'] = float(loss(coal(**inf.params_inferred), obs))
     d = inf.dist_inferred.demography.get_epoch(0).pop_sizes['pop_0']
     r['dist_inferred_N0'] = float(d)
-    # reproducibility and cache on/off
+    # reproducibility and cache on/off (an unrelated Inference with its OWN optimiser options is set up in between and never
+    # run: options given to one object are that object's alone)
+    mk_inf(case, opts={'maxiter': 1, 'ftol': 0.5})
     inf2, *_ = mk_inf(case)
     inf2.run()
     r['again'] = summary(inf2)
